@@ -464,7 +464,7 @@ fn formats<N: ArrayLength>() -> Result<CaseInfo, String> {
 }
 
 macro_rules! for_ns {
-    ([$($n:ty),*], $N:ident => $body:block) => { $( { type $N = $n; $body } )* };
+    ([$($n:ty),*], $N:ident => $body:block) => { $( { type $N = $n; if <$N as generic_array::typenum::Unsigned>::USIZE <= vcommon::maxn() { $body } } )* };
 }
 
 /// C05 on the deserialisation error paths: `c` elements are offered, element `fail_at` fails to parse (or the
